@@ -744,6 +744,9 @@ class Runner(object):
                 return V({short})
             prov = "conv:%s:%s" % (short, "raw" if a0.ident else "derived")
             if k <= NUMERIC:
+                if short == "int" and "float" in k:
+                    # a float can be inf or nan (`1e999` lexes as a FLOAT and is inf; float("nan") from text): int() of those raises
+                    self.may_raise(["builtins.OverflowError", "builtins.ValueError"], e)
                 return V({short}, tag=prov)
             if k == {"str"}:
                 c = self.choose(2)
